@@ -199,6 +199,19 @@ func genC20(r *rand.Rand, t *Trace, thorough bool) {
 			}
 		}
 		qz, _ := comet.NewQuantizer([]comet.QuantizerType{comet.FullPrecision, comet.HalfPrecision, comet.Int8Precision}[ty])
+		if r.Intn(3) == 0 {
+			// trained before, on something else (larger, smaller, or nothing at all): the LAST training is the
+			// one that counts -- a quantiser trained on `train` behaves like a fresh one trained on `train`
+			var earlier [][]float32
+			switch r.Intn(3) {
+			case 0:
+				earlier = [][]float32{{absMax*100 + 5, -1}}
+			case 1:
+				earlier = [][]float32{{absMax / 64}}
+			}
+			qz.Train(earlier)
+			t.Stat("quant.trained_before")
+		}
 		qz.Train(train)
 		if q8, ok := qz.(*comet.Int8Quantizer); ok && absMax > 0 {
 			// the range may also come from a persisted value: a restored quantiser (SetAbsMax on a fresh one,
